@@ -93,11 +93,26 @@ func dropNullOptionals(s gschema.Schema, t gschema.Term, v any, budget int) any 
 		}
 		return out
 	case "disj":
+		m, ok := v.(map[string]any)
+		if !ok {
+			return v
+		}
+		// the branch whose discriminator constant the value carries, else the first struct branch
+		for _, b := range t.Sub {
+			if b.K != "ref" {
+				continue
+			}
+			if target, ok := s.Lookup(strings.TrimPrefix(b.A, gschema.Pkg+".")); ok && target.K == "struct" {
+				for i, f := range target.Fields {
+					if ft := target.Sub[i]; ft.K == "const" && strings.HasPrefix(ft.A, "disc:") && m[f.Name] == strings.TrimPrefix(ft.A, "disc:") {
+						return dropNullOptionals(s, b, v, budget)
+					}
+				}
+			}
+		}
 		for _, b := range t.Sub {
 			if b.K == "ref" || b.K == "struct" {
-				if _, ok := v.(map[string]any); ok {
-					return dropNullOptionals(s, b, v, budget)
-				}
+				return dropNullOptionals(s, b, v, budget)
 			}
 		}
 	}
